@@ -39,7 +39,9 @@ PADS = {("center", "left"), ("center", "right"), ("center", "outer"), ("left", "
 
 def rows(m, seed):
     r = [np.eye(m), np.zeros((1, m)), (np.arange(m) * 3.0 - 2)[None, :], (np.arange(m)[::-1] * 2.0 - 1)[None, :],
-         np.ones((1, m)), ((-1.0) ** np.arange(m) * (np.arange(m) + 1 + seed % 3))[None, :]]
+         np.ones((1, m)), ((-1.0) ** np.arange(m) * (np.arange(m) + 1 + seed % 3))[None, :],
+         # wide dynamic range: an implementation that obtains a value by cancelling large terms loses it
+         np.resize(np.array([1.0, 1e20, -1e20, 3.0, 0.5, 3e17, -3e17, 2.0]), m)[None, :]]
     return np.vstack(r)
 
 
@@ -140,9 +142,10 @@ def part_a(rec, li, n, seed, only=None):
                         if compare(rec, "single-axis", case, r, exp, ("b", S.dimname("X", to))) and supply == "call" and not omit:
                             # the same in single precision (small integers and halves are exact there too)
                             try:
-                                r32 = getattr(g, op)(da.astype(np.float32), "X", **kw)
+                                # (without the wide-dynamic-range row, which single precision cannot hold)
+                                r32 = getattr(g, op)(da.isel(b=slice(0, -1)).astype(np.float32), "X", **kw)
                                 rec.calls += 1
-                                if r32.dims != r.dims or not np.array_equal(np.asarray(r32.values, dtype=float), exp):
+                                if r32.dims != r.dims or not np.array_equal(np.asarray(r32.values, dtype=float), exp[:-1]):
                                     rec.violation("single-axis", "values:float32", dict(case, dtype="float32"), exp, r32.values)
                             except Exception as e:
                                 rec.violation("single-axis", "raise:float32:" + exc_sig(e), dict(case, dtype="float32"), "array", f"{type(e).__name__}: {e}"[:200])
